@@ -301,3 +301,22 @@ package protocol
 //@   requires s.block.v != nil ==> *asptr(s.block.v, *cipher.BlockCipher) != nil && blockUser(*asptr(s.block.v, *cipher.BlockCipher)) != ""
 //@   ensures s.isClient && !(protoOf(seg) == 3 || protoOf(seg) == 7 || protoOf(seg) == 11 || protoOf(seg) == 9 || protoOf(seg) == 4 || protoOf(seg) == 5) ==> err != nil && s.nextRecv.v == old(s.nextRecv.v) && ghost(qn) == old(ghost(qn))
 //@   ensures !s.isClient && !(protoOf(seg) == 2 || protoOf(seg) == 6 || protoOf(seg) == 10 || protoOf(seg) == 8 || protoOf(seg) == 4 || protoOf(seg) == 5) ==> err != nil && s.nextRecv.v == old(s.nextRecv.v) && ghost(qn) == old(ghost(qn))
+//@
+//@ // Configured padding maxima are honoured (0 means none) and never exceeded (C16, C14).
+//@ func maxPaddingSizeWithTrafficPattern(mtu int, transport common.TransportProtocol, fragmentSize int, existingPaddingSize int, trafficPattern *appctlpb.TrafficPattern, position paddingPosition) (r int)
+//@   property C16 C14
+//@   mode int
+//@   requires 0 <= mtu && mtu <= 65535 && 0 <= fragmentSize && fragmentSize <= 65535 && 0 <= existingPaddingSize && existingPaddingSize <= 255
+//@   ensures 0 <= r && r <= 255
+//@   ensures transport != common.StreamTransport ==> (r == 0 || fragmentSize + 88 + existingPaddingSize + r <= mtu)
+//@   ensures trafficPattern != nil && trafficPattern.Padding != nil && position == 0 && trafficPattern.Padding.MaxMiddlePaddingLen != nil ==> r <= max(0, int(*trafficPattern.Padding.MaxMiddlePaddingLen))
+//@   ensures trafficPattern != nil && trafficPattern.Padding != nil && position == 1 && trafficPattern.Padding.MaxEndPaddingLen != nil ==> r <= max(0, int(*trafficPattern.Padding.MaxEndPaddingLen))
+//@
+//@ // A server uses low entropy only toward a client that used it first (C16).
+//@ func (s *Session) lowEntropySendConfig() (mode appctlpb.LowEntropyMode, rotation appctlpb.LowEntropyMaskRotation, enabled bool)
+//@   property C16
+//@   mode int
+//@   requires s != nil
+//@   ensures enabled && !s.isClient ==> s.clientUseLowEntropy.v != 0
+//@   ensures enabled ==> s.trafficPattern != nil && s.trafficPattern.LowEntropy != nil && mode != 0
+//@   ensures !enabled ==> mode == 0
